@@ -160,7 +160,7 @@ def fallible_conv(c):
       'D-total (total constructor), D-lock (NO-POISON), D-range. NOWRAP: no primitive integer + - * / % or negation, no shift with a non-constant count, no narrowing / sign-changing / float->int `as` cast, '
       'no wrapping_/overflowing_/saturating_/unchecked_ method — this makes the verdict identical for debug and release builds (thorough re-extracts with overflow-checks off, --release and debug-assertions on and requires identical verdicts). '
       'ERRD: every crate Result and every checked_*/try_from/parse result in that scope is ?-propagated, returned, matched with a failing arm, or passed through a failure-preserving combinator. '
-      'HGATE / AGGR: an operand a built-in handler type-checks is type-checked on every path to Ok, and min / max / sum / mul leave their argument loop towards Ok only when every argument was looked at (no type mismatch is skipped by an early exit).',
+      'HTYPED / HGATE / AGGR: every operand of a built-in handler is consumed only through a type gate (typed accessor + ?, failing variant match, Value equality), an operand a handler type-checks is type-checked on every path to Ok, and min / max / sum / mul leave their argument loop towards Ok only when every argument was looked at (no type mismatch is skipped by an early exit).',
       not_decided='nothing of the statement; rust_decimal\'s own totality (checked_* never panic) is trusted; stack exhaustion by deep trees is C01',
       assumptions=COMMON_ASSUME + ['rust_decimal checked_add/sub/mul/div/rem return None instead of panicking'])
 def c04(ctx):
@@ -178,6 +178,7 @@ def c04(ctx):
     robs, nscc = r_term.rule_rec(tm, sorted(em.reach))
     obs += robs
     # "every type mismatch is reported as Err": a type gate that is skipped on some path accepts the mismatch
+    obs += r_value.rule_htyped(ctx.prog, hs)
     obs += r_value.rule_hgate(ctx.prog, hs)
     rows, probs = r_table.builtin_rows(ctx.prog, reg_model(ctx))
     obs += r_top.with_views(ctx.prog, r_top.rule_aggr, rows)
@@ -347,6 +348,9 @@ def c06(ctx):
     obs += r_order.em_fallback(ctx.cache, prog, em, r_order.rule_o4, ('child', 'handler'))
     rows, probs = r_table.builtin_rows(prog, reg_model(ctx))
     obs += r_top.rule_compound(prog, rows)
+    # `x op= e` and `x op e` may build their result through different constructors (Value::Number(d) / Value::from(d)):
+    # they agree only if the conversion is the identity wrap
+    obs += [o for o in r_value.rule_tfrom(prog) if 'rust_decimal::Decimal' in o.key or 'bool' in o.key or 'String' in o.key]
     return obs, {'analysed': {'evaluator_bodies': len(em.bodies)}}
 
 
@@ -375,7 +379,7 @@ def c05(ctx):
     obs += r_parse.fallback(r_parse.rule_sep, roles)
     obs += r_parse.fallback(r_parse.rule_wprefix, roles, ctx.lm, merged=True)
     obs += r_parse.fallback(r_parse.rule_stray, roles)
-    obs += r_parse.fallback(r_parse.rule_strterm, roles)
+    obs += r_parse.rule_strterm(roles)
     obs += r_token.rule_charunits(roles)
     bodies = [ctx.prog.by_id[i] for i in sorted(roles.reach)]
     obs += r_errd.rule_errd(bodies, extra_callee_pred=fallible_conv)
@@ -401,6 +405,11 @@ def c09(ctx):
     obs += r_num.rule_literal_path(prog, roles, em)
     obs += r_value.rule_tacc(prog)
     obs += r_value.rule_htyped(prog, prog.builtin_handlers())
+    # decimal arithmetic and ordering: each arithmetic / comparison literal performs its own operation on (left, right)
+    rows, probs = r_table.builtin_rows(prog, reg_model(ctx))
+    for fb, c, w in probs:
+        obs.append(bad('TOP', 'TOP|eval|%s' % fb.name, w, c.where(), body=fb.name))
+    obs += [o for o in r_top.rule_top(prog, rows) if o.status != 'violated' or any(('`%s`' % k) in o.what for k in ('+', '-', '*', '/', '%', '<', '<=', '>', '>=', '==', '!=', '+=', '-=', '*=', '/=', '%=')) or 'floor' in o.key or 'cover' in o.key]
     return obs, {'analysed': {'number_path_bodies': len(bodies)}}
 
 
@@ -527,6 +536,7 @@ def c10(ctx):
     obs += r_token.rule_tws(tok_roles(ctx))
     obs += r_token.rule_charunits(roles)
     obs += r_token.rule_wordscan(roles, reg_model(ctx))
+    obs += r_token.rule_numstart(roles, tok_roles(ctx))
     obs += r_prec.rule_munch(roles, tok_roles(ctx).tm)
     return obs, {'analysed': {'slice_sites': len(sm.verdicts)}}
 
@@ -551,6 +561,9 @@ def c11(ctx):
     # how far the scanner moves must not depend on byte lengths (else what follows an operator / literal is eaten or
     # kept depending on how much whitespace separates it)
     obs += r_token.rule_charunits(roles)
+    # which operator token is cut must depend on the operator's own characters and the registry only — not on what
+    # follows it (a test on the raw next character sees the layout)
+    obs += r_prec.rule_munch(roles, tr.tm)
     return obs, {}
 
 
@@ -573,4 +586,6 @@ def c02(ctx):
     obs += r_parse.fallback(r_prec.rule_wgate, roles)
     obs += r_prec.rule_wassoc(ctx.prog)
     obs += [o for o in r_parse.fallback(r_prec.rule_wpostfix, roles) if '|gate|' not in o.key]
+    # prefix < postfix binding presupposes that a sign is a token of its own (never glued to the digits by the lexer)
+    obs += r_token.rule_numstart(roles, tok_roles(ctx))
     return obs, {'analysed': {'registered_rows': len(rows)}}
